@@ -46,7 +46,8 @@ pub struct Net {
     pub send_stalls: VecDeque<usize>,
     /// per send (front = next send): what happens AFTER the bytes were handed to the peer -
     /// 0 = nothing, n > 0 = the send stays pending for n more steps ("flush pending"),
-    /// usize::MAX = the send reports an I/O error although the bytes went out
+    /// usize::MAX = the send reports an I/O error although the bytes went out,
+    /// usize::MAX - 1 = the send fails at once and nothing goes out
     pub send_after: VecDeque<usize>,
     /// the transport reports a closed connection on recv once rx is drained
     pub closed: bool,
@@ -153,6 +154,10 @@ impl Future for SendFut {
             n.sends += 1;
             let stall = n.send_stalls.pop_front().unwrap_or(0);
             let after = n.send_after.pop_front().unwrap_or(0);
+            if after == usize::MAX - 1 {
+                // the write fails before anything reaches the peer
+                return Poll::Ready(Err(Error::Transport(std::io::Error::new(std::io::ErrorKind::BrokenPipe, "simulated write error, nothing sent"))));
+            }
             if stall > 0 {
                 // (a send that is stalled before its bytes go out completes normally afterwards)
                 n.pending_send = Some((d, stall, Some(cx.waker().clone())));
